@@ -314,13 +314,17 @@ Definition sub_ok (sub : str) : Prop :=
 Definition wf (l : label) : Prop :=
   valid_pkg (l_pkg l) = true /\ valid_name (l_name l) = true /\ sub_ok (l_sub l) /\ l <> original_target.
 
+(* the obligation on the source: String() puts the subrepo in front before it returns a `...` form (seeded r2-m3) *)
+Lemma gen_print_order : print_subrepo_prefix_first = true.
+Proof. reflexivity. Qed.
+
 Lemma print_shape pkg name sub :
   label_eqb (L pkg name sub) zero_label = false -> label_eqb (L pkg name sub) original_target = false ->
   print (L pkg name sub) =
     (if is_nil sub then [] else 47%N :: 47%N :: 47%N :: sub) ++
     47%N :: 47%N :: pkg ++ (if str_eqb name dots then (if is_nil pkg then lit "..." else lit "/...") else 58%N :: name).
 Proof.
-  intros Hz Hor. unfold print. rewrite Hz, Hor. unfold is_all_sub. simpl l_pkg. simpl l_name. simpl l_sub.
+  intros Hz Hor. unfold print. rewrite gen_print_order, Hz, Hor. unfold is_all_sub. simpl l_pkg. simpl l_name. simpl l_sub.
   change (lit all_subpackages_name) with dots.
   destruct sub as [|c sub], (str_eqb name dots), (is_nil pkg); cbn [is_nil];
     change (lit "//") with [47%N; 47%N]; change (lit "///") with [47%N; 47%N; 47%N]; change (lit ":") with [58%N];
